@@ -2,6 +2,7 @@
 #include "gen_common.h"
 #include "oracle_common.h"
 #include "profiles.h"
+#include "destination.h"
 
 #include <csignal>
 #include <fstream>
@@ -30,6 +31,16 @@ Plan gen_c07(uint64_t seed, int tier)
   {
     p.cfg["sink" + std::to_string(i) + "_type"] = 1; // real FileSink
     p.cfg["sink" + std::to_string(i) + "_notifier"] = Rng(seed ^ static_cast<uint64_t>(0x77 + i)).chance(1, 3) ? 1 : 0; // with FileEventNotifier callbacks
+    {
+      // one real file sink in three is a RotatingFileSink (size limit, sometimes minutely rotation on top): the destination
+      // is then the set of its files
+      Rng rr(seed ^ static_cast<uint64_t>(0x9907 + i));
+      if (rr.chance(1, 3))
+      {
+        p.cfg["sink" + std::to_string(i) + "_rotating"] = rr.pick<int64_t>({512, 700, 1024, 2048});
+        p.cfg["sink" + std::to_string(i) + "_rot_minutely"] = rr.chance(1, 4) ? 1 : 0;
+      }
+    }
   }
   for (int i = 0; i < nloggers; ++i)
   {
@@ -285,6 +296,17 @@ Verdict judge_c07(Plan const& p, History const& h, RunInfoLite const& ri)
   v.probes["stops_checked"] = stops;
   v.probes["statement_file_pairs_checked_at_stop"] = checked;
   v.probes["backend_starts"] = restarts;
+  {
+    int64_t rot = 0;
+    for (auto const& e : h.ev)
+    {
+      if (e.type == EV_FILE_SNAP)
+      {
+        rot = std::max(rot, e.b);
+      }
+    }
+    v.probes["rotated_files_in_a_rotating_destination"] = static_cast<uint64_t>(rot);
+  }
   v.probes["terminal_events_judged_by_parent"] = 0;
   return v;
 }
@@ -295,6 +317,7 @@ Verdict judge_c07_parent(Plan const& p, std::string const& pre, int wait_status,
   Verdict v;
   int term_kind = 0, term_arg = 0, term_thread = 0;
   std::map<int, std::string> files;
+  std::set<int> rotating;
   struct S
   {
     int64_t id;
@@ -314,12 +337,16 @@ Verdict judge_c07_parent(Plan const& p, std::string const& pre, int wait_status,
     {
       ls >> term_kind >> term_arg >> term_thread;
     }
-    else if (w == "file")
+    else if (w == "file" || w == "rfile")
     {
       int i;
       std::string path;
       ls >> i >> path;
       files[i] = path;
+      if (w == "rfile")
+      {
+        rotating.insert(i);
+      }
     }
     else if (w == "stmt")
     {
@@ -367,12 +394,10 @@ Verdict judge_c07_parent(Plan const& p, std::string const& pre, int wait_status,
                      {{"signal", std::to_string(term_arg)}});
   }
   std::map<int, std::vector<std::string>> content;
+  int64_t rotated_seen = 0;
   for (auto const& kv : files)
   {
-    std::ifstream f(kv.second, std::ios::binary);
-    std::stringstream ss;
-    ss << f.rdbuf();
-    content[kv.first] = split_lines(ss.str());
+    content[kv.first] = split_lines(rotating.count(kv.first) ? read_rotating_destination(kv.second, &rotated_seen) : read_whole_file(kv.second));
   }
   uint64_t required = 0;
   int nsinks = static_cast<int>(p.get("nsinks", 1));
@@ -472,6 +497,7 @@ Verdict judge_c07_parent(Plan const& p, std::string const& pre, int wait_status,
   }
   v.nontrivial = true;
   v.probes["terminal_events_judged_by_parent"] = 1;
+  v.probes["rotated_files_in_a_rotating_destination"] += static_cast<uint64_t>(rotated_seen);
   v.probes["required_statement_file_pairs"] = required;
   v.probes[std::string("terminal_") + (term_kind == OP_EXIT ? "exit" : (term_kind == OP_RAISE ? "raise" : "real_fault"))] = 1;
   if (is_signal)
